@@ -568,6 +568,13 @@ BRIDGE = {
         "theorems": ["GEN_responders_factor"],
         "props": ["C20"],
     },
+    "Rough.Props.GenWorkers": {
+        "rs_modules": ["Responder", "Online", "LongTerm", "Message", "Merkle"],
+        "rs_functions": {"Responder": ["Responder::new", "struct Responder"], "Online": ["OnlineKey::new", "OnlineKey::make_dele", "struct OnlineKey"]},
+        "namespace": "Rough.Props.GenCore",
+        "theorems": ["genResponders_sim", "GEN_workers_one_identity", "GEN_workers_same_identity"],
+        "props": ["C18"],
+    },
     "Rough.Props.GenConfig": {
         "rs_modules": ["EnvConfig", "FileConfig", "Config"],
         "namespace": "Rough.Props.GenConfig",
@@ -637,6 +644,7 @@ _BRIDGE_WHAT = {
     "Rough.Props.GenStats": "stated directly about the regenerated code (bridge composed with the model-level theorem): PerClientStats as regenerated: every event counted once or overflowed, bounded number of tracked addresses",
     "Rough.Props.GenResponder": "stated directly about the regenerated code: LongTermKey::new + make_cert yield a certificate whose DELE carries the online key with window [0, 2^64-1] and whose signature verifies under the seed's key in the version's context (GEN_cert_valid); one batch of Responder::send_responses sends exactly the reference reply per queued request, to its source, in order, and the independent verifier accepts each (GEN_send_responses_replies / _verified); it returns normally for any drawable fault injection and any failing sends (GEN_send_responses_returns)",
     "Rough.Props.GenSecrets": "stated about the constructors as regenerated: the two responders Server::new keeps are a function of the seed's public interface — two seeds with the same public key and certificate signatures yield identical responders (GEN_responders_factor)",
+    "Rough.Props.GenWorkers": "stated about the constructors as regenerated: any number of workers created from ONE seed (each with its own online seeds) get responders that are the model's Server.new responders, satisfy the server invariant the C18 theorem starts from, and carry certificates of the SAME long-term key (GEN_workers_one_identity / _same_identity)",
     "Rough.Props.GenConfig": "C16 stated about the regenerated loaders, ServerConfig getters and validator composed as main composes them: effective = written, out-of-range refused, missing required refused (GEN_start_file / GEN_start_env = the model start)",
     "Rough.Bridge.ResponderNew": "OnlineKey::new and Responder::new (online key from the drawn seed, certificate = make_cert of the SAME long-term key object for this version, empty queue and tree): the two responders created in Server::new's order are the model's Server.new responders",
     "Rough.Bridge.SendResponses": "responder.rs send_responses (the whole batch loop incl. failing sends, fault injection, lazily evaluated debug! arguments, statistics events)",
